@@ -269,7 +269,7 @@ pub fn gen_pipeline(seed: u64, allowed: &[Config], restrict: &Restrict) -> Plan 
     let mut placed = 0;
     while placed < nfaults && tries < 40 {
         tries += 1;
-        let kind = rng.below(17);
+        let kind = rng.below(19);
         if mask & (1 << kind) == 0 {
             continue;
         }
@@ -342,7 +342,14 @@ pub fn gen_pipeline(seed: u64, allowed: &[Config], restrict: &Restrict) -> Plan 
                         }
                     }
                 }
-                p.medium.push(MFault::Garbage { rec, bytes });
+                p.medium.push(MFault::Garbage { rec, bytes, forged: false });
+            }
+            17 | 18 => {
+                let rec = rng.below(lens.len());
+                match crate::forge::forge(&p, rng) {
+                    Some(bytes) => p.medium.push(MFault::Garbage { rec, bytes, forged: true }),
+                    None => continue,
+                }
             }
             11 if io_r || (arm.scale_input)(&p) => {
                 let kind = if rng.chance(1, 2) { CutKind::Err } else { CutKind::Eof };
